@@ -9,7 +9,7 @@ for d in sorted(glob.glob(root + "/*/")):
     name = os.path.basename(d.rstrip("/"))
     n = needs.get(name, {})
     meta = {"name": name, "property": n.get("property", name.split("-")[0]),
-            "origin": "written by a fresh sub-agent that was given only the property text and a scratch worktree",
+            "origin": "written by a fresh sub-agent that was given only the property text and a scratch worktree (wave 2/3: plus one sentence saying which function an earlier change already touches)",
             "what_it_changes": n.get("change", ""), "needs_to_manifest": n.get("needs", ""),
             "confirmed_by_me": {}, "checks_run": []}
     cf = os.path.join(d, "confirm.txt")
@@ -33,6 +33,10 @@ for d in sorted(glob.glob(root + "/*/")):
                 "ran": int(m.group(1)), "stable_pass": int(m.group(2)), "not_passing_in_full_run": int(m.group(3)),
                 "passed_when_rerun_alone": re.findall(r"RERUN-ALONE PASS: (\S+)", t),
                 "still_not_passing": (m2.group(2).split() if m2 else None)}
+            g = re.search(r"grouped_with=(.*)", t)
+            if g:
+                meta["confirmed_by_me"]["baseline_suite_with_change"]["run_together_with"] = [x for x in g.group(1).split() if x != name]
+                meta["confirmed_by_me"]["baseline_suite_with_change"]["note"] = "one suite run with all of these changes applied at the same time (the machine was too loaded for one 15-40 min run per change); a test broken by this change alone would also fail in that run unless another change masked it" 
     caught_any = False
     for cf in sorted(glob.glob(d + "check_*.txt")):
         tier = re.search(r"check_(\w+)\.txt", cf).group(1)
